@@ -257,6 +257,9 @@ def run(ctx):
         ctx.check(ok, "C12-R4", "rollback-bytes:same-count-for-parser-and-llm_bytes",
                   "llm_bytes is truncated to len - n where n is the very count passed to Parser::rollback",
                   "llm_bytes is truncated to `%s`, which is not llm_bytes.len() minus the byte count given to Parser::rollback (`%s`)" % (detail, acc), site=trb.where(cb))
+        # token_len must agree with the bytes decode_raw produced for special tokens (shared with C16-R7)
+        from . import c16 as _c16
+        _c16.token_len_rule(ctx, "C12-R5")
         # check_initialized dominates the parser rollback
         ci = L.guard_edges(trb, L.is_call_to(TP + "::check_initialized"), True)
         still = L.dominated_by_cut(trb, [cb], ci) if ci else [cb]
